@@ -766,22 +766,25 @@ def run_histories(ctx, binary, model, hists, label):
         return h
     with concurrent.futures.ThreadPoolExecutor(max_workers=4) as ex:
         res = list(ex.map(one, hists))
-    # one model process for all histories
-    script = []
-    for h in res:
-        script.append("reset")
-        script += [l for l, _ in h.model_lines]
-    rc, mout, merr = vlib.sh([model], input="\n".join(script) + "\n", timeout=3000)
-    ml = mout.split("\n")
-    if rc != 0:
-        raise RuntimeError("model driver failed: %s" % merr[-500:])
-    pos = 0
-    for h in res:
-        pos += 1  # reset line
-        n = len(h.model_lines)
-        h.model_out = ml[pos:pos + n]
-        pos += n
-        h.mismatch = compare_model(h, h.model_out) if not [p for p in h.problems if p[0] == "harness"] else []
+    # the model driver runs the histories in batches (its output is large: one state line per command)
+    BATCH = 400
+    for b in range(0, len(res), BATCH):
+        chunk = res[b:b + BATCH]
+        script = []
+        for h in chunk:
+            script.append("reset")
+            script += [l for l, _ in h.model_lines]
+        rc, mout, merr = vlib.sh([model], input="\n".join(script) + "\n", timeout=3000)
+        ml = mout.split("\n")
+        if rc != 0:
+            raise RuntimeError("model driver failed: %s" % merr[-500:])
+        pos = 0
+        for h in chunk:
+            pos += 1  # reset line
+            n = len(h.model_lines)
+            h.model_out = ml[pos:pos + n]
+            pos += n
+            h.mismatch = compare_model(h, h.model_out) if not [p for p in h.problems if p[0] == "harness"] else []
     return res
 
 
